@@ -170,9 +170,34 @@ type ExtraPlugin struct {
 	Args map[string]string
 }
 
+// StmtObserver, if set, receives the statement lifecycle callbacks of the framework hook (after this package
+// stamped the commit id on the recording cache).
+var StmtObserver func(ssn *framework.Session, s *framework.Statement, phase string, checkpoint int)
+
+var (
+	curRC     *RecCache
+	stmtCount int64
+)
+
+func onStatement(ssn *framework.Session, s *framework.Statement, phase string, cp int) {
+	if rc := curRC; rc != nil {
+		switch phase {
+		case "commit-begin":
+			stmtCount++
+			rc.CurStmt = stmtCount
+		case "commit-end":
+			rc.CurStmt = 0
+		}
+	}
+	if StmtObserver != nil {
+		StmtObserver(ssn, s, phase, cp)
+	}
+}
+
 // Init registers actions and plugins once and wraps the proportion builder.
 func Init() {
 	initOnce.Do(func() {
+		framework.VerifStatementObserver = onStatement
 		if v := os.Getenv("VERIF_LOG"); v != "" {
 			if n, err := strconv.Atoi(v); err == nil {
 				_ = kailog.InitLoggers(n)
@@ -346,6 +371,8 @@ func (r *Runner) Cycle() (res *CycleResult) {
 	real.Run(stop)
 	real.WaitForCacheSync(stop)
 	rc := &RecCache{Cache: real, Cycle: r.cycle, rng: r.Rng, faults: r.Faults, OnEvent: r.Hooks.OnEvent}
+	curRC = rc
+	defer func() { curRC = nil }()
 
 	func() {
 		defer func() {
